@@ -423,15 +423,15 @@ def routing(ctx: Ctx, rule: str) -> None:
 
 
 def run(ctx: Ctx) -> None:
-    scope_filter(ctx, "1")
-    local_ops(ctx, "2")
-    closest_source(ctx, "3")
-    proximity_order(ctx, "4")
-    scope_table(ctx, "5")
-    redownload(ctx, "6")
-    refuse_without_local(ctx, "7")
-    root_scope_table(ctx, "8")
-    routing(ctx, "9")
+    ctx.call(scope_filter, "1")
+    ctx.call(local_ops, "2")
+    ctx.call(closest_source, "3")
+    ctx.call(proximity_order, "4")
+    ctx.call(scope_table, "5")
+    ctx.call(redownload, "6")
+    ctx.call(refuse_without_local, "7")
+    ctx.call(root_scope_table, "8")
+    ctx.call(routing, "9")
 
 
 MUTANTS = [
